@@ -153,6 +153,14 @@ def cases(rng, tier):
         for calls in (["private-json", "public-json"], ["public-json", "private-json"], ["private", "public-json", "public", "private-json"], ["public-json", "public-json", "private"]):
             for holds_private in (True, False):
                 out.append({"op": "key_hist", "kind": kind, "calls": calls, "holds_private": holds_private})
+    # one key object, random histories of every export call (JWK dict / JSON, PEM, DER, thumbprint, public key object), from each way a key object comes into being:
+    # compared call by call, and in the object's final internal state, with the Lean model of the object (Model/KeyObject.lean)
+    CALLS = ["private", "public", "private-json", "public-json", "private-pem", "public-pem", "private-der", "public-der", "thumbprint", "public-key"]
+    for kind in ("RSA-2048", "EC-P-256", "EC-P-521-lz", "OKP-Ed25519", "OKP-X25519"):
+        for init in ("private-object", "public-object", "private-dict", "public-dict"):
+            for options in (None, {"use": "sig"}, {"kid": "my-kid", "alg": "X"}):
+                for _ in range(2 if tier == "quick" else 12):
+                    out.append({"op": "key_obj_hist", "kind": kind, "init": init, "options": options, "calls": [rng.choice(CALLS) for _ in range(rng.randrange(1, 8))]})
     out.append({"op": "keyset", "kinds": ["RSA-2048", "EC-P-256-lz", "OKP-Ed25519", "oct-16"]})
     out.append({"op": "keyset", "kinds": ["EC-P-521-lz", "OKP-X25519"]})
     out.append({"op": "keyset", "kinds": ["RSA-2048", "RSA-1024", "EC-P-256", "EC-P-384-lz", "OKP-Ed25519", "OKP-Ed448"]})       # several members of one type, none with an explicit kid
@@ -256,6 +264,32 @@ def impl(c):
             except Exception as e:
                 res.append("raised " + type(e).__name__)
         return {"exports": res}
+    if op == "key_obj_hist":
+        k = make_key(c["kind"], rng)
+        private = c["init"].startswith("private")
+        key = import_in_form(k, "object" if c["init"].endswith("object") else "jwk", private, c["options"])
+        res = []
+        for call in c["calls"]:
+            try:
+                if call in ("private", "public"):
+                    d = key.as_dict(is_private=call == "private")
+                elif call in ("private-json", "public-json"):
+                    d = json.loads(key.as_json(is_private=call == "private-json"))
+                elif call.endswith("-pem") or call.endswith("-der"):
+                    b = (key.as_pem if call.endswith("pem") else key.as_der)(is_private=call.startswith("private"))
+                    assert isinstance(b, bytes) and b
+                    if call.endswith("pem"):
+                        assert (b"PRIVATE KEY" in b) == call.startswith("private")
+                    res.append("private-bytes" if call.startswith("private") else "public-bytes"); continue
+                elif call == "thumbprint":
+                    key.thumbprint(); res.append("done"); continue
+                else:
+                    assert key.get_public_key() is not None
+                    res.append("done"); continue
+                res.append(sorted([m, v] for m, v in d.items()))
+            except ValueError:
+                res.append("ValueError")
+        return {"exports": res, "state": {"private_key": bool(key.private_key), "public_key": bool(key.public_key), "dict_loaded": bool(key._dict_data)}}
     if op == "keyset_hist":
         ks = KeySet([import_in_form(make_key(k, rng), "object", True, None) for k in c["kinds"]])
         res = []
@@ -352,6 +386,11 @@ def impl_key(c, rng):
     return res
 
 
+def _rng_for_model():
+    import random
+    return random.Random(0)          # (make_key caches per kind: the key is the one impl used)
+
+
 def kind_of(kty):
     return {"RSA": "rsa", "EC": "ec", "OKP": "okp", "oct": "oct"}[kty]
 
@@ -364,6 +403,13 @@ def model_line(c):
         return {"op": op, "s": c["s"].encode().hex()}
     if op == "coord":
         return {"op": op, "len": c["len"], "n": c["n"]}
+    if op == "key_obj_hist":
+        k = make_key(c["kind"], _rng_for_model())
+        pub, priv = ref_jwk(k, False), ref_jwk(k, True)
+        private = c["init"].startswith("private")
+        return {"op": "key_hist", "kind": kind_of(pub["kty"]), "kty": pub["kty"], "pub": [[m, v] for m, v in pub.items() if m != "kty"], "priv": [[m, v] for m, v in priv.items() if m != "kty"],
+                "options": [[m, v] for m, v in (c["options"] or {}).items()], "init": c["init"], "raw": [[m, v] for m, v in (priv if private else pub).items()],
+                "thumb": ref_thumbprint(pub), "calls": c["calls"]}
     if op == "key":
         o = impl(c)
         if o["kty"] == "oct" or o["_nonstr"]:
@@ -424,6 +470,37 @@ def oracle(c, out):
                 leak = PRIVATE_ONLY & set(members)
                 if leak:
                     bad(f"{where} contains private members {sorted(leak)}", kind="private-leak", where="key-history"); break
+    elif op == "key_obj_hist":
+        k = make_key(c["kind"], _rng_for_model())
+        private = c["init"].startswith("private")
+        pub, priv = ref_jwk(k, False), ref_jwk(k, True)
+        extra = dict(c["options"] or {})
+        extra.setdefault("kid", ref_thumbprint(pub))
+        want_pub, want_priv = sorted([m, v] for m, v in dict(pub, **extra).items()), sorted([m, v] for m, v in dict(priv, **extra).items())
+        def within(got, core, full):
+            # the key's members and its kid exactly; the other common parameters (use, alg, …) may or may not be carried by an export
+            g = {m: v for m, v in got} if isinstance(got, list) else None
+            return g is not None and all(g.get(m) == v for m, v in dict(core, kid=extra["kid"]).items()) and all([m, v] in full for m, v in g.items())
+        for i, (call, got) in enumerate(zip(c["calls"], out["exports"])):
+            where = f"{c['kind']} key object from a {c['init']} (options {c['options']}), call #{i + 1} {call!r} of the history {c['calls']}"
+            if call.startswith("private"):
+                if not private:
+                    if got != "ValueError":
+                        bad(f"{where}: a private export of a public-only key returned {str(got)[:80]}", kind="private-export", where="key-object-history"); break
+                elif call.endswith("pem") or call.endswith("der"):
+                    if got != "private-bytes":
+                        bad(f"{where}: {got}", kind="private-export", where="key-object-history"); break
+                elif not within(got, priv, want_priv):
+                    bad(f"{where}: private JWK export differs from the key's RFC 7518 members + options", kind="history-dependent", where="key-object-history"); break
+            elif call.startswith("public-") and (call.endswith("pem") or call.endswith("der")):
+                if got != "public-bytes":
+                    bad(f"{where}: {got}", kind="reimport", via="history"); break
+            elif call.startswith("public") and call != "public-key":
+                leak = PRIVATE_ONLY & {m for m, _ in got} if isinstance(got, list) else {"?"}
+                if leak:
+                    bad(f"{where}: public export contains private members {sorted(leak)}", kind="private-leak", where="key-object-history"); break
+                if not within(got, pub, want_pub):
+                    bad(f"{where}: public JWK export differs from the key's RFC 7518 members + options", kind="history-dependent", where="key-object-history"); break
     elif op == "keyset_hist":
         for call, members in zip(c["calls"], out["exports"]):
             if isinstance(members, str):
@@ -487,7 +564,7 @@ def oracle(c, out):
 
 
 def classify(c, out):
-    return c["op"] + ("/" + c["kind"].split("-")[0] + "/" + c["form"] if c["op"] == "key" else "")
+    return c["op"] + ("/" + c["kind"].split("-")[0] + "/" + c["form"] if c["op"] == "key" else "/" + c["kind"].split("-")[0] + "/" + c["init"] if c["op"] == "key_obj_hist" else "")
 
 
 def nontrivial(c, out):
